@@ -11,10 +11,14 @@ from . import common
 from .decode import obs_key
 
 PROFILES = [
-    ('sel', .3, dict(p_incompat=.4, n_steps=(3, 9))),
+    ('sel', .26, dict(p_incompat=.4, n_steps=(3, 9))),
     ('sel_dv', .25, dict(p_incompat=.3, n_dv=(1, 3), p_dv_link=.3, n_steps=(3, 8), n_metric=(0, 2))),
     ('sel_con', .1, dict(p_incompat=.3, p_constraint=1.0, n_steps=(5, 10))),
-    ('conn', .2, dict(p_incompat=.2, n_conn=(1, 1), n_steps=(2, 6), max_sel=3, max_opts=3, n_dv=(0, 1))),
+    ('conn', .12, dict(p_incompat=.2, n_conn=(1, 1), n_steps=(2, 6), max_sel=3, max_opts=3, n_dv=(0, 1))),
+    ('conn2', .06, dict(p_incompat=.1, n_conn=(2, 2), n_steps=(1, 4), max_sel=2, max_opts=3, p_grp=.1, max_side=2,
+                        max_side_total=3, p_conn_cond=.3)),
+    ('conn3', .06, dict(p_incompat=.1, n_conn=(3, 3), n_steps=(1, 3), max_sel=1, max_opts=2, p_grp=0., p_excl=.1,
+                        p_conn_cond=.15, max_side=2, max_side_total=3)),
     ('dup_id', .1, dict(p_incompat=.3, p_dup_id=.6, n_dv=(0, 2))),
     ('shared_option', .05, dict(allow=('shared_option',), p_incompat=.3, p_opt_existing=.4, p_multi_choice=.3)),
 ]
@@ -314,6 +318,8 @@ def run_fix_laws(sp, enc, col, emit, rnd, model, max_vars=6):
                             all(abs(float(p_) - float(q_)) <= 1e-9 for p_, q_ in zip(want['x'], full))):
                         continue  # only a vector that is valid as given, with the variable active at v, must survive
                     try:
+                        if rnd.random() < .5:
+                            P.decode(x, False, model)   # both decode modes are used while the variable is fixed
                         got, _g = P.decode(x, True, model)
                     except Exception as e:  # noqa
                         info = D.exc_info(e)
@@ -348,9 +354,9 @@ def run_fix_laws(sp, enc, col, emit, rnd, model, max_vars=6):
                 emit('free_does_not_restore', {'var': dv.name, 'what': 'statistics', 'now': P.stats(),
                                                'fresh': stats0, 'enc': enc})
             vecs, _ = D.declared_space(P.gp, 25, rnd)
-            for x in vecs:
-                a, _g = P.decode(x, True, model)
-                b_, _g2 = F.decode(x, True, model)
+            for k, x in enumerate(vecs):
+                a, _g = P.decode(x, k % 2 == 0, model)
+                b_, _g2 = F.decode(x, k % 2 == 0, model)
                 if a != b_:
                     emit('free_does_not_restore', {'var': dv.name, 'what': 'decode', 'x': x, 'now': a, 'fresh': b_,
                                                    'enc': enc})
@@ -461,6 +467,8 @@ def fix_free_sequence(sp, enc, col, emit, rnd, model):
     fixed = {}
     n = 0
     try:
+        if rnd.random() < .6:
+            P.gp.get_graph(rand_vec(P, rnd))
         for _ in range(rnd.randint(1, 4)):
             if fixed and rnd.random() < .4:
                 i = rnd.choice(list(fixed))
@@ -474,9 +482,9 @@ def fix_free_sequence(sp, enc, col, emit, rnd, model):
                 fixed[i] = v
             n += 1
             col.count('monitor_fix_free_steps')
-            if rnd.random() < .5:
+            if rnd.random() < .7:
                 try:
-                    P.gp.get_graph(rand_vec(P, rnd))
+                    P.gp.get_graph(rand_vec(P, rnd), create=rnd.random() < .5)
                 except RuntimeError:
                     pass  # the combination of fixed values may leave no design at all: an explicit error is fine
         for i in list(fixed):
@@ -484,10 +492,10 @@ def fix_free_sequence(sp, enc, col, emit, rnd, model):
         rows, rows_f = P.enumerate(), F.enumerate()
         if rows != rows_f:
             emit('free_does_not_restore', {'what': 'enumeration after fix/free sequence', 'enc': enc})
-        for _ in range(12):
+        for k in range(12):
             x = rand_vec(P, rnd)
-            a, _g = P.decode(x, True, model)
-            b_, _g2 = F.decode(x, True, model)
+            a, _g = P.decode(x, k % 2 == 0, model)
+            b_, _g2 = F.decode(x, k % 2 == 0, model)
             if a != b_:
                 emit('free_does_not_restore', {'what': 'decode after fix/free sequence', 'x': x, 'now': a,
                                                'fresh': b_, 'enc': enc})
@@ -541,7 +549,12 @@ def worker(task, col):
             common.guard(col, check_case, prop, c['spec'], col, 'corpus', task['n_hist'], task['depth'], ['corpus', c['file']])
     for i in range(task['lo'], task['hi']):
         name, sp = case_spec(prop, task['seed'], i)
+        n0 = len(col.violations)
         common.guard(col, check_case, prop, sp, col, name, task['n_hist'], task['depth'], [prop, task['seed'], i])
+        if sp.get('conn') and len(col.violations) > n0:
+            common.attribute_to_pattern_encoders(
+                col, n0, lambda c, sp=sp, i=i: check_case(prop, sp, c, 'rerun', task['n_hist'], task['depth'],
+                                                          [prop, task['seed'], i]))
 
 
 def main(run):
